@@ -122,6 +122,45 @@ def run(ctx):
                   'line %d: no common lock is held (locks in the package: '
                   '%s)' % (test.lineno, mark.lineno, sorted(locks) or 'none'),
                   where=where(f, test.node))
+    # R7: ... and the readers look at the mark FIRST.  basic_disconnect
+    # removes the membership, then the mark; a reader that finds the
+    # membership, is overtaken by that clean-up and then finds no mark
+    # answers "connected" for a client that is gone (the second terminating
+    # thread runs the handler again / KeyError in the release)
+    ctx.rule('C20.R7', 'is_connected reads the disconnecting mark before the '
+             'membership (reader order matches the writer order of C20.R2)',
+             floor=1)
+    g = m.method('BaseManager', 'is_connected')
+
+    def reads(fn, attr, depth=0):
+        out = []
+        for x in walk_own(fn.node):
+            if isinstance(x, ast.Attribute) and U(x) == 'self.' + attr:
+                out.append(x)
+            elif depth < 2 and isinstance(x, ast.Call) and \
+                    isinstance(x.func, ast.Attribute) and \
+                    U(x.func.value) == 'self':
+                kind, tg = m.resolve_call(fn, x)
+                if any(reads(t, attr, depth + 1) for t in tg):
+                    out.append(x)
+        return out
+    pend = reads(g, 'pending_disconnect')
+    rooms = reads(g, 'rooms')
+    if not pend or not rooms:
+        ctx.bad('BaseManager.is_connected', 'reads', 'is_connected does not '
+                'read both the mark and the membership', where(g), )
+    else:
+        first = lambda xs: min((x.lineno, x.col_offset) for x in xs)  # noqa
+        ctx.check(first(pend) < first(rooms), 'BaseManager.is_connected',
+                  'the mark is read before the membership',
+                  key='membership read before the mark', reason='is_connected '
+                  'looks the client up in the rooms (line %d) before it '
+                  'reads pending_disconnect (line %d): basic_disconnect '
+                  'removes the membership first and the mark last, so a '
+                  'terminating thread that is overtaken between the two '
+                  'reads sees a member without a mark and terminates the '
+                  'client a second time' % (first(rooms)[0], first(pend)[0]),
+                  where=where(g))
     # R2: the mark outlives the membership
     ctx.rule('C20.R2', 'the disconnecting mark is removed only after the '
              'client has left every room (never "unmarked but still a '
